@@ -25,6 +25,7 @@ Act(e) ==
     [] e.ev = "CRecv" -> IF Msg(e.bytes) \in s2c THEN ClientRecv(Msg(e.bytes)) ELSE UNCHANGED svars
     [] e.ev = "Disp"  -> UNCHANGED svars
     [] e.ev = "Helper" -> UNCHANGED svars
+    [] e.ev = "Again" -> UNCHANGED svars
 
 Bad(e) ==
   CASE e.ev = "Send" ->
@@ -46,6 +47,10 @@ Bad(e) ==
          \cup T(e.dtype \in Types /\ e.getcmd # CmdOf(e.bytes), "C10.command_honest")
          \cup T(e.dtype \in Types /\ ~e.gennil, "C10.response_generates")
          \cup T(Cardinality({ o \in outstanding : Matches(o, Msg(e.bytes)) }) # 1, "C10.pairing.unmatched")
+    [] e.ev = "Again" ->   \* a request encoded once more after it has been answered
+         T(e.getcmd # CmdOf(e.bytes), "C10.command_honest")
+         \cup T(e.dtype # "nilnil" /\ e.dtype # Dispatch(pkg, CmdOf(e.bytes)), "C10.dispatch")
+         \cup T(e.dtype \in Types /\ e.dtype # e.type, "C10.dispatch.same_type")
     [] e.ev = "Helper" ->
          \* a packet-building helper promises a type: the octets must carry that type's command id and dispatch to it
          T(CmdOf(e.bytes) \notin CmdsOf(e.want) \/ e.dtype # e.want, "C10.helper")
